@@ -23,18 +23,23 @@ from pony.orm import core
 import ponyutil
 
 # model attribute numbers of C (declaration order)
-ATTRS = [('parent', 'ref'), ('a', 'int'), ('b', 'int'), ('w', 'volatile'), ('z', 'lazy')]
+ATTRS = [('parent', 'ref'), ('a', 'int'), ('b', 'int'), ('w', 'volatile'), ('z', 'lazy'), ('n', 'nullable')]
 NAMES = [n for n, _ in ATTRS]
 IDX = {n: i for i, n in enumerate(NAMES)}
 VOLATILE = [i for i, (_, k) in enumerate(ATTRS) if k == 'volatile']
 LAZY = [i for i, (_, k) in enumerate(ATTRS) if k == 'lazy']
 NONLAZY = [i for i in range(len(ATTRS)) if i not in LAZY]
+NULLABLE = [i for i, (_, k) in enumerate(ATTRS) if k in ('ref', 'lazy', 'nullable')]     # model value -1 = NULL / None
 PIDS = [1, 2, 3]
 CIDS = [1, 2, 3, 4, 5, 6, 7]
 
 
 def enc(v):
     return -1 if v is None else int(v)
+
+
+def dec(i, v):
+    return None if (i in NULLABLE and v == -1) else v
 
 
 class Env(object):
@@ -52,6 +57,7 @@ class Env(object):
             b = Required(int)
             w = Required(int, volatile=True)
             z = Optional(int, lazy=True)
+            n = Optional(int)
         # part 2 schema
         class Q(db.Entity):
             id = PrimaryKey(int)
@@ -86,17 +92,17 @@ class Env(object):
         w.execute('DELETE FROM C'); w.execute('DELETE FROM P')
         for p in PIDS: w.execute('INSERT INTO P (id) VALUES (?)', (p,))
         for cid, vals in rows:
-            w.execute('INSERT INTO C (id, parent, a, b, w, z) VALUES (?,?,?,?,?,?)', [cid] + [None if (i == 0 and v == -1) else v for i, v in enumerate(vals)])
+            w.execute('INSERT INTO C (id, parent, a, b, w, z, n) VALUES (?,?,?,?,?,?,?)', [cid] + [dec(i, v) for i, v in enumerate(vals)])
         w.execute('COMMIT')
     def table(self):
         """committed contents of C in rowid order, model encoding"""
         return [[r[0], [[i, enc(v)] for i, v in enumerate(r[1:])]] for r in
-                self.w.execute('SELECT id, parent, a, b, w, z FROM C ORDER BY id').fetchall()]
+                self.w.execute('SELECT id, parent, a, b, w, z, n FROM C ORDER BY id').fetchall()]
     def write(self, wop):
         k = wop[0]; w = self.w
-        if k == 'set': w.execute('UPDATE C SET %s = ? WHERE id = ?' % NAMES[wop[2]], (wop[3], wop[1]))
+        if k == 'set': w.execute('UPDATE C SET %s = ? WHERE id = ?' % NAMES[wop[2]], (dec(wop[2], wop[3]), wop[1]))
         elif k == 'move': w.execute('UPDATE C SET parent = ? WHERE id = ?', (None if wop[2] == -1 else wop[2], wop[1]))
-        elif k == 'insert': w.execute('INSERT OR IGNORE INTO C (id, parent, a, b, w, z) VALUES (?,?,?,?,?,?)', (wop[1], None if wop[2] == -1 else wop[2], wop[3], wop[3], wop[3], wop[3]))
+        elif k == 'insert': w.execute('INSERT OR IGNORE INTO C (id, parent, a, b, w, z, n) VALUES (?,?,?,?,?,?,?)', (wop[1], None if wop[2] == -1 else wop[2], wop[3], wop[3], wop[3], wop[3], None if wop[3] == 0 else wop[3]))
         elif k == 'delete': w.execute('DELETE FROM C WHERE id = ?', (wop[1],))
         else: raise ValueError(wop)
     def close(self):
@@ -185,7 +191,7 @@ def run_reader(env, case):
                 elif k == 'write':
                     obj = idx.get(op['c'])
                     if obj is None or op['a'] == 0: res = {'err': 'other'}
-                    else: setattr(obj, NAMES[op['a']], op['v']); res = {'ok': True}
+                    else: setattr(obj, NAMES[op['a']], dec(op['a'], op['v'])); res = {'ok': True}
                 elif k == 'commit':
                     commit(); res = {'ok': True}
                 elif k == 'load':
@@ -302,7 +308,7 @@ def oracle(case, real):
 def gen_case(rng):
     rows = []
     for cid in sorted(rng.sample([1, 2, 3, 4, 5], rng.choice([2, 3, 4, 5]))):
-        rows.append([cid, [rng.choice([1, 1, 2, -1]), rng.choice([0, 1, 2]), rng.choice([0, 1, 2]), rng.choice([0, 1]), rng.choice([-1, 0, 1])]])
+        rows.append([cid, [rng.choice([1, 1, 2, -1]), rng.choice([0, 1, 2]), rng.choice([0, 1, 2]), rng.choice([0, 1]), rng.choice([-1, -1, 0, 1]), rng.choice([-1, -1, 0, 1])]])
     hot_c = rng.sample([r[0] for r in rows], min(len(rows), rng.choice([1, 2, 2])))
     hot_p = rng.sample(PIDS, rng.choice([1, 2]))
     hot_a = rng.sample(range(len(ATTRS)), rng.choice([1, 2, 3]))
@@ -317,7 +323,8 @@ def gen_case(rng):
         if rng.random() < 0.55:
             for _ in range(rng.choice([1, 1, 2])):
                 r = rng.random(); cid = rng.choice(hot_c if rng.random() < 0.8 else CIDS)
-                if r < 0.4: w.append(['set', cid, rng.choice([a for a in hot_a if a != 0] or [1]), rng.choice([0, 1, 2, next(counter)])])
+                if r < 0.35: w.append(['set', cid, rng.choice([a for a in hot_a if a != 0] or [1]), rng.choice([0, 1, 2, next(counter)])])
+                elif r < 0.4: w.append(['set', cid, rng.choice([4, 5]), rng.choice([-1, 3, next(counter)])])
                 elif r < 0.7: w.append(['move', cid, rng.choice(hot_p + [-1])])
                 elif r < 0.85: w.append(['insert', rng.choice([6, 7] + [c for c in CIDS]), rng.choice(hot_p + [-1]), rng.choice([0, 1, 2])])
                 else: w.append(['delete', cid])
@@ -325,7 +332,9 @@ def gen_case(rng):
         c = rng.choice(hot_c if rng.random() < 0.85 else CIDS); p = rng.choice(hot_p if rng.random() < 0.85 else PIDS)
         if wmode and rng.random() < 0.45:
             rr = rng.random()
-            if rr < 0.5: op = {'k': 'write', 'c': c, 'a': rng.choice([a for a in hot_a if a != 0] or [1, 2, 3, 4]), 'v': rng.choice([0, 1, 2, next(counter)])}
+            if rr < 0.5:
+                wa = rng.choice([a for a in hot_a if a != 0] or [1, 2, 3, 4, 5]) if rng.random() < 0.5 else rng.choice([1, 2, 3, 4, 5])
+                op = {'k': 'write', 'c': c, 'a': wa, 'v': rng.choice([0, 1, 2, next(counter)] + ([-1] if wa in (4, 5) else []))}
             elif rr < 0.85: op = {'k': 'commit'}
             else: op = {'k': 'read', 'c': c, 'a': rng.choice(hot_a)}
             steps.append({'w': w, 'op': op}); continue
@@ -348,21 +357,21 @@ def gen_case(rng):
 
 def template_cases():
     """fixed histories: every observation kind x every kind of concurrent change x every reload path"""
-    rows = [[1, [1, 1, 1, 1, 1]], [2, [1, 2, 2, 2, 2]], [3, [2, 3, 3, 3, -1]]]
+    rows = [[1, [1, 1, 1, 1, 1, 1]], [2, [1, 2, 2, 2, 2, -1]], [3, [2, 3, 3, 3, -1, 3]]]
     F = {'k': 'fetch', 'ids': [1, 2, 3], 'cols': NONLAZY}
     cases = []
-    def hist(*steps): cases.append({'rows': rows, 'steps': [{'w': w, 'op': op} for w, op in steps]})
-    reloads = [F, {'k': 'load', 'c': 1}, {'k': 'fetch', 'ids': [1], 'sql': True, 'cols': [0, 1, 2, 3, 4]},
+    def hist(*steps, rows=rows): cases.append({'rows': rows, 'steps': [{'w': w, 'op': op} for w, op in steps]})
+    reloads = [F, {'k': 'load', 'c': 1}, {'k': 'fetch', 'ids': [1], 'sql': True, 'cols': [0, 1, 2, 3, 4, 5]},
                {'k': 'fetch', 'ids': [1, 2], 'cols': NONLAZY, 'cond': [1, 0]}, {'k': 'iter', 'p': 1}, {'k': 'iter', 'p': 2}, {'k': 'isEmpty', 'p': 2}]
-    changes = [['set', 1, 1, 9], ['set', 1, 3, 9], ['set', 1, 4, 9], ['move', 1, 2], ['move', 1, -1], ['delete', 1], ['insert', 6, 1, 5], ['move', 3, 1]]
-    observes = [{'k': 'read', 'c': 1, 'a': a} for a in range(5)] + [{'k': 'iter', 'p': 1}, {'k': 'len', 'p': 1}, {'k': 'isEmpty', 'p': 1},
+    changes = [['set', 1, 1, 9], ['set', 1, 3, 9], ['set', 1, 4, 9], ['set', 1, 5, 9], ['set', 1, 5, -1], ['move', 1, 2], ['move', 1, -1], ['delete', 1], ['insert', 6, 1, 5], ['move', 3, 1]]
+    observes = [{'k': 'read', 'c': 1, 'a': a} for a in range(6)] + [{'k': 'iter', 'p': 1}, {'k': 'len', 'p': 1}, {'k': 'isEmpty', 'p': 1},
                 {'k': 'contains', 'p': 1, 'c': 1}, {'k': 'count', 'p': 1}, {'k': 'len', 'p': 2}]
     for ob in observes:
         for ch in changes:
             for rl in reloads:
                 hist(([], F), ([], ob), ([ch], rl), ([], ob))
     # own writes: assign, (read back), commit and stay in the session, concurrent committed change, reload, read again
-    for a in (1, 2, 3, 4):
+    for a in (1, 2, 3, 4, 5):
         for readback in (True, False):
             for rl in reloads[:4]:
                 for pre_read in (False, True):
@@ -372,6 +381,22 @@ def template_cases():
                     hist(*st)
     hist(([], F), ([], {'k': 'write', 'c': 1, 'a': 1, 'v': 50}), ([], {'k': 'write', 'c': 2, 'a': 2, 'v': 60}), ([], F), ([], {'k': 'read', 'c': 2, 'a': 2}),
          ([], {'k': 'commit'}), ([['set', 2, 2, 7], ['set', 1, 2, 8]], F), ([], {'k': 'read', 'c': 1, 'a': 2}))
+    # an observed attribute whose value is None, an own assignment to ANOTHER attribute of the same instance, commit(),
+    # another session commits a non-NULL value for it (nothing else changes), reload or direct re-read
+    nrows = [[1, [-1, 1, 1, 1, -1, -1]], [2, [1, 2, 2, 2, 2, 2]]]
+    for x in (0, 4, 5):
+        ch = ['move', 1, 2] if x == 0 else ['set', 1, x, 7]
+        for y in (1, 2, 5 if x != 5 else 4):
+            for rl in (None, {'k': 'fetch', 'ids': [1, 2], 'cols': NONLAZY}, {'k': 'load', 'c': 1},
+                       {'k': 'fetch', 'ids': [1], 'sql': True, 'cols': [0, 1, 2, 3, 4, 5]}):
+                for observe_twice in (False, True):
+                    st = [([], {'k': 'fetch', 'ids': [1, 2], 'cols': NONLAZY}), ([], {'k': 'read', 'c': 1, 'a': x})]
+                    st.append(([], {'k': 'write', 'c': 1, 'a': y, 'v': 40}))
+                    if observe_twice: st.append(([], {'k': 'read', 'c': 1, 'a': x}))
+                    st.append(([], {'k': 'commit'}))
+                    if rl is None: st.append(([ch], {'k': 'read', 'c': 1, 'a': x}))
+                    else: st += [([ch], rl), ([], {'k': 'read', 'c': 1, 'a': x})]
+                    hist(*st, rows=nrows)
     # the session's own UPDATE is refused when an attribute it read was changed concurrently
     hist(([], F), ([], {'k': 'read', 'c': 1, 'a': 1}), ([['set', 1, 1, 77]], {'k': 'write', 'c': 1, 'a': 2, 'v': 5}), ([], {'k': 'commit'}))
     # the regression input of fix 6b92706: len, move a child away, re-fetch, len
@@ -509,7 +534,8 @@ def run(ctx, extra=None):
         import time
         t0 = time.time()
         tcs = template_cases()
-        if not ctx.thorough: tcs = ctx.rng.sample(tcs[:616], 200) + tcs[616:]
+        nobs = 12 * 10 * 7       # observation kinds x change kinds x reload paths (sampled in the quick tier)
+        if not ctx.thorough: tcs = ctx.rng.sample(tcs[:nobs], 200) + tcs[nobs:]
         run_cases(ctx, env, tcs, 'template')
         n = ctx.scale(1000, 40000)
         for chunk in range(0, n, 1000):
